@@ -374,7 +374,10 @@ func streamC49(h *H) {
 			}
 			return []string{"othererr", HexS(res.Err.Error())}
 		}
-		nc := h.N(25, 150)
+		nc := 25 * h.NSh
+		if h.Thorough() {
+			nc = 150
+		}
 		for i := 0; i < nc; i++ {
 			s := h.c49Num() + h.Pick(units)
 			if h.Intn(3) == 0 {
